@@ -102,10 +102,13 @@ def _field(f, rx):
 
 
 def to_ast(partial_asts):
-    """the model's input for the partial ASTs of the real parser -> (files, rx pairs); raises Unmodelled"""
+    """the model's input for the partial ASTs of the real parser -> (files, rx pairs, flags); raises Unmodelled.
+    flag `annot-type-params`: `_create_annotation_type` (not modelled) resolves its parameter types with the same
+    `_resolve_type`, during registration: its messages are those of a modelled site raised at an unmodelled one"""
     from stone.frontend import ast as A
     rx = {}
     out = []
+    flags = set()
     for desc in partial_asts:
         if not desc or not isinstance(desc[0], A.AstNamespace):
             raise Unmodelled('no-namespace-first')
@@ -143,10 +146,12 @@ def to_ast(partial_asts):
                 decls.append({'k': 'annot', 'name': item.name})
             elif isinstance(item, A.AstAnnotationTypeDef):
                 decls.append({'k': 'annot_type', 'name': item.name})
+                if item.params:
+                    flags.add('annot-type-params')
             else:
                 raise Unmodelled('node:' + type(item).__name__)
         out.append({'ns': desc[0].name, 'decls': decls})
-    return out, [[k, v] for k, v in rx.items()]
+    return out, [[k, v] for k, v in rx.items()], flags
 
 
 # ------------------------------------------------------------------------------------------------ real Api -> dump
@@ -292,6 +297,10 @@ SAME_MESSAGE = {'tagFieldClash': 'dupField'}
 
 # messages that an unmodelled site raises too (annotations applied to members resolve `ns.Annotation` the same way)
 AMBIGUOUS = {'nsNotImported', 'notNamespace'}
+# the kinds `_resolve_type` raises: ambiguous when an annotation type has parameters (see `to_ast`)
+RESOLVE_KINDS = {'nsNotImported', 'notNamespace', 'undefinedSymbol', 'voidNullable', 'routeRef', 'notDataType', 'attrsOnUser',
+                 'params.missingPositional', 'params.tooManyPositional', 'params.unknownKeyword',
+                 'params.positionalAsKeyword', 'params.badArgument', 'circular', 'nullableNullable'}
 
 
 def kind_of_message(msg):
@@ -363,7 +372,7 @@ def judge_members(partial_asts, api):
         for item in desc[1:]:
             if isinstance(item, A.AstTypeDef):
                 declared.setdefault(nsn, []).append(item)
-            elif isinstance(item, A.AstAlias):
+            elif isinstance(item, (A.AstAlias, A.AstRouteDef)):
                 declared.setdefault(nsn, []).append(item)
     for nsn, items in declared.items():
         if nsn == 'stone_cfg':
@@ -382,7 +391,32 @@ def judge_members(partial_asts, api):
         if want != have:
             bad('alias-set', 'the aliases of a namespace are not the declared ones',
                 {'namespace': nsn, 'declared': want, 'api': have})
+        want = sorted((i.name, i.version) for i in items if isinstance(i, A.AstRouteDef))
+        have = sorted((r.name, r.version) for r in ns.routes)
+        if want != have:
+            bad('route-set', 'the routes of a namespace are not the declared ones',
+                {'namespace': nsn, 'declared': want, 'api': have})
         for item in items:
+            if isinstance(item, A.AstRouteDef):
+                r = [x for x in ns.routes if x.name == item.name and x.version == item.version]
+                if len(r) != 1:
+                    continue
+                r = r[0]
+                for part, ref, t in (('arg', item.arg_type_ref, r.arg_data_type), ('result', item.result_type_ref, r.result_data_type),
+                                     ('error', item.error_type_ref, r.error_data_type)):
+                    p = _expr_problem(ref, t, nsn) if ref is not None else None
+                    if p:
+                        bad('route-type', 'a route does not have its declared %s type' % part,
+                            {'route': '%s.%s:%d' % (nsn, item.name, item.version), 'problem': p}, part=part)
+                dep = item.deprecated
+                want_dep = None if not dep else ('deprecated', dep[1], dep[2])
+                have_dep = None if r.deprecated is None else (
+                    'deprecated', None if r.deprecated.by is None else r.deprecated.by.name,
+                    None if r.deprecated.by is None else r.deprecated.by.version)
+                if want_dep != have_dep:
+                    bad('route-deprecated', 'the deprecation of a route is not the declared one',
+                        {'route': '%s.%s:%d' % (nsn, item.name, item.version), 'declared': want_dep, 'api': have_dep})
+                continue
             if isinstance(item, A.AstAlias):
                 a = ns.alias_by_name.get(item.name)
                 if a is None:
@@ -408,7 +442,7 @@ def judge_members(partial_asts, api):
             if have != names + implicit:
                 bad('member-list', 'the members of a type are not the declared ones in declaration order (plus only '
                     'the implicit `other` of an open union that inherits none)',
-                    {'type': me, 'declared': names, 'implicit': implicit, 'api': have}, what='union' if is_union else 'struct')
+                    {'type': me, 'declared': names, 'implicit': implicit, 'api': have}, of='union' if is_union else 'struct')
                 continue
             for af, f in zip(item.fields, d.fields):
                 if isinstance(af, A.AstVoidField):
@@ -422,6 +456,17 @@ def judge_members(partial_asts, api):
                         {'type': me, 'member': af.name, 'problem': p})
             if implicit and not (isinstance(d.fields[-1].data_type, dt.Void) and d.catch_all_field is d.fields[-1]):
                 bad('catch-all', 'the implicit `other` is not the Void catch-all of its union', {'type': me})
+            if isinstance(item, A.AstStructDef):
+                want_sub = None
+                if item.subtypes:
+                    want_sub = ([(t.name, t.type_ref.ns or nsn, t.type_ref.name) for t in item.subtypes[0]], bool(item.subtypes[1]))
+                have_sub = None
+                if d.has_enumerated_subtypes():
+                    have_sub = ([(f.name, f.data_type.namespace.name, f.data_type.name) for f in d.get_enumerated_subtypes()],
+                                bool(d.is_catch_all()))
+                if want_sub != have_sub:
+                    bad('subtypes', 'the enumerated subtypes of a struct are not the declared ones',
+                        {'type': me, 'declared': want_sub, 'api': have_sub})
             if item.extends is None:
                 if d.parent_type is not None:
                     bad('parent', 'a type declared without `extends` has a parent', {'type': me})
@@ -453,13 +498,13 @@ def prepare(files):
     if not asts:
         return ('skip', 'empty')
     try:
-        jfiles, rx = to_ast(asts)
+        jfiles, rx, flags = to_ast(asts)
     except Unmodelled as e:
         return ('skip', str(e).split(':')[0])
-    return ('ok', asts, {'op': 'comp.compile', 'files': jfiles, 'rx': rx, 'denote': True})
+    return ('ok', asts, {'op': 'comp.compile', 'files': jfiles, 'rx': rx, 'denote': True}, flags)
 
 
-def judge_case(ck, files, origin, asts, reply, real=None):
+def judge_case(ck, files, origin, asts, reply, real=None, flags=()):
     """compare one prepared case; `reply` = the driver's answer"""
     st = real if real is not None else faithful.compile_guarded(files, fast=True)
     case = {'suite': 'comp.compile', 'origin': origin, 'specs': _files(files)}
@@ -511,10 +556,13 @@ def judge_case(ck, files, origin, asts, reply, real=None):
         return st
     # real: InvalidSpec
     rk = kind_of_message(st[1])
+    ambiguous = set(AMBIGUOUS)
+    if 'annot-type-params' in flags:
+        ambiguous |= RESOLVE_KINDS
     if reply['out'] == 'ok':
         if rk is None:
             ck.hist('comp.not_judged.unmodelled_rule', _template_key(st[1]))
-        elif rk in AMBIGUOUS:
+        elif rk in ambiguous:
             ck.hist('comp.not_judged.ambiguous_message', rk)
         else:
             ck.hist('comp.outcome', 'real-%s/model-ok' % rk)
@@ -527,7 +575,7 @@ def judge_case(ck, files, origin, asts, reply, real=None):
     ck.hist('comp.error_kind', rk)
     if rk == mk:
         ck.agree('comp.compile')
-    elif rk in AMBIGUOUS:
+    elif rk in ambiguous:
         ck.hist('comp.not_judged.ambiguous_message', rk)
     else:
         ck.disagree('comp.compile', case, rk, mk)
@@ -557,10 +605,10 @@ def run_batch(ck, batch):
         ck.case(('comp', tuple(t for _p, t in files)), nontrivial=p[0] == 'ok')
         if p[0] == 'skip':
             ck.hist('comp.skipped', p[1])
-            prepared.append((files, origin, None, None))
+            prepared.append((files, origin, None, None, ()))
         else:
-            prepared.append((files, origin, p[1], p[2]))
-    reqs = [r for _f, _o, _a, r in prepared if r is not None]
+            prepared.append((files, origin, p[1], p[2], p[3]))
+    reqs = [r for _f, _o, _a, r, _fl in prepared if r is not None]
     replies = iter(ck.driver(reqs))
     # the hypothesis of the theorems (`compile fs = .ok api`) on every case: how often they speak
     for hy in ck.driver([dict(r, op='comp.hyps') for r in reqs]):
@@ -568,11 +616,11 @@ def run_batch(ck, batch):
         if hy.get('compile_ok') is False and hy.get('kind') in ('outOfFuel', 'internal'):
             ck.stat('comp.model_' + hy['kind'])
     out = []
-    for files, origin, asts, req in prepared:
+    for files, origin, asts, req, flags in prepared:
         if req is None:
             out.append(None)
             continue
-        out.append(judge_case(ck, files, origin, asts, next(replies)))
+        out.append(judge_case(ck, files, origin, asts, next(replies), flags=flags))
     return out
 
 
@@ -662,6 +710,9 @@ SEEDS = [
     ('deprecated-ok', [('a.stone', _ns('route r(Void, Void, Void) deprecated by r:2\n\nroute r:2(Void, Void, Void)\n\nroute q(Void, Void, Void) deprecated\n'))], 'ok'),
     ('forward-parent-2ns', [('a.stone', _ns('import nb\n\nstruct S extends nb.T\n    x String\n\nunion_closed V extends nb.U\n    c\n')),
                             ('b.stone', _ns('struct T extends T0\n    y String\n\nstruct T0\n    z String\n\nunion_closed U\n    a\n    b String\n', 'nb'))], 'ok'),
+    ('forward-parent-2ns-same-name', [('a.stone', _ns('import nb\n\nstruct S extends nb.T\n    x X\n\nstruct X\n    a String\n\nunion V extends nb.U\n    c X\n')),
+                                      ('b.stone', _ns('struct T\n    f X\n    l List(X?)\n\nstruct X\n    b Int32\n\nunion U\n    u X\n', 'nb'))], 'ok'),
+    ('circular-union', [('a.stone', _ns('union A extends B\n    a\n\nunion B extends A\n    b\n'))], 'circular'),
     ('qualified-builtin', [('a.stone', _ns('import nb\n\nstruct T\n    y String\n\nstruct S\n    x nb.List(T)\n')),
                            ('b.stone', _ns('struct T\n    z Int32\n', 'nb'))], 'ok'),
     ('two-files-one-ns', [('a1.stone', _ns('struct S\n    x T\n    l List(A, min_items=1, max_items=3)?\n')),
@@ -749,8 +800,8 @@ def suite_mutants(ck, n_models, n_mut):
 
 def suite_compile(ck):
     suite_seeds(ck)
-    suite_generated(ck, ck.scale(25, 400))
-    suite_injected(ck, ck.scale(3, 40), ck.scale(1, 2))
+    suite_generated(ck, ck.scale(25, 250))
+    suite_injected(ck, ck.scale(3, 25), ck.scale(1, 2))
     suite_mutants(ck, ck.scale(20, 200), ck.scale(6, 12))
 
 
